@@ -119,6 +119,8 @@ func runCStormInner(s *CStorm) (res cstormResult) {
 		return cstormResult{"harness", "Allocate: " + err.Error()}
 	}
 	relayAddr := relay.LocalAddr()
+	// an application that asks for a second allocation is refused - and that must be all
+	_, secondErr := cl.Allocate()
 	var peers []*sim.UDPSock
 	for i := 0; i < 2*s.Writers; i++ {
 		p, _ := n.BindUDP("udp4", net.IPv4(10, 2, 0, byte(i+1)), 7000)
@@ -191,13 +193,27 @@ func runCStormInner(s *CStorm) (res cstormResult) {
 	}()
 	wg.Wait()
 	_ = relay.Close()
+	if secondErr != nil && (s.ClientCloseRound < 0 || s.ClientCloseRound >= s.Rounds) {
+		// the socket is closed, nobody is allocating: a new Allocate may fail for many reasons
+		// (the server may still hold the old allocation) but not because "somebody is allocating"
+		time.Sleep(2 * time.Second)
+		again, aerr := cl.Allocate()
+		if aerr != nil && strings.Contains(aerr.Error(), "only one Allocate() caller is allowed") {
+			res = cstormResult{"allocate-lock-left-held", "after a refused second Allocate (" + secondErr.Error() + ") and the close of the relayed socket, Allocate fails with: " + aerr.Error()}
+		}
+		if again != nil {
+			_ = again.Close()
+		}
+	}
 	cl.Close()
 	time.Sleep(10 * time.Second)
 	synctest.Wait()
 	select {
 	case <-readerDone:
 	default:
-		res = cstormResult{"reader-stuck", "ReadFrom is still blocked after the relayed socket and the client were closed"}
+		if res.kind == "" {
+			res = cstormResult{"reader-stuck", "ReadFrom is still blocked after the relayed socket and the client were closed"}
+		}
 	}
 	_ = srv.Close()
 	n.CloseAll()
